@@ -43,6 +43,9 @@ def main(argv=None) -> int:
         from .props.extra2 import run_extra2
 
         run_extra2(prop, idx, rep, args.tier)
+        from .props.extra3 import run_extra3
+
+        run_extra3(prop, idx, rep, args.tier)
         if args.tier == "thorough" and not args.no_selftest and not args.repo:
             from .selftest import run_selftest
 
@@ -60,6 +63,10 @@ def main(argv=None) -> int:
     except index_mod.AnalysisError as e:
         print(f"ANALYSIS-ERROR: property={prop} {e}")
         # violations found before the analysis broke down are still reported
+        if args.dump_keys:
+            for o in rep.obligations:
+                if not o.ok:
+                    print(json.dumps({"property": prop, **o.key(), "where": o.where}))
         if any(not o.ok for o in rep.obligations):
             try:
                 if finish(rep, None) == 1:
